@@ -33,8 +33,9 @@ func (zl *Ziplist) Next() []byte {
 	* 2^16-2 entries, this value is set to 2^16-1 and we need to traverse the
 	* entire list to know how many items it holds.*/
 	if zl.length == 65535 {
+		// the list ends with ZIP_END (0xFF); 0xFE is the marker of a 5 byte <prevlen> field
 		firstByte := zl.buf.ReadByte()
-		if firstByte != 0xFE {
+		if firstByte != 0xFF {
 			return ReadZiplistEntry2(zl.buf, firstByte)
 		}
 	} else {
